@@ -138,6 +138,8 @@ func parseLog(path string, m *merged, flavour string, prop string, seed int64, t
 		case "end":
 			lastOpen = ""
 			lastCase = ""
+		case "marshal-error":
+			fmt.Fprintf(os.Stderr, "a record of %s could not be encoded: %s\n", path, string(line))
 		case "harness-panic":
 			fmt.Fprintf(os.Stderr, "harness panic in group %s: %s\n", head.Group, string(line))
 		case "viol":
